@@ -1,6 +1,7 @@
 (* C10 - the experimental variogram has the invariances of its definition. *)
 From SG Require Import Base.Prelude Base.NumpyPrims Model.Pairs Model.Groups Model.Estimators Model.Binning
-  Proofs.PairsP Proofs.GroupsP Proofs.NumpyP Proofs.BinningP Proofs.InvarianceP.
+  Proofs.PairsP Proofs.GroupsP Proofs.NumpyP Proofs.BinningP Proofs.InvarianceP Proofs.EstimatorsP Spec.EstimatorsR.
+From Coq Require Import Reals.
 Local Open Scope Q_scope.
 
 (* reordering the observation points permutes the condensed vectors ... *)
@@ -17,13 +18,21 @@ Theorem C10_classes_perm {P X} (d : P -> P -> Q) (x : P -> P -> X) (pts pts' : l
 Proof. exact (classes_perm d x pts pts' edges i). Qed.
 Print Assumptions C10_classes_perm.
 
-(* ... and the Matheron semivariance of a class depends on that multiset only.
-   PARTIAL: the same statement for Dowd / Genton (quantiles of the sorted class) is not proved here:
-   it needs "sorted permutations are pointwise ==" for the setoid Q; it is covered by the metamorphic
-   runs of the harness only. *)
-Theorem C10_matheron_perm_partial l l' : Permutation l l' -> optQeq (matheron l) (matheron l').
+(* ... and the semivariance of a class depends on that multiset only, for all four estimators.
+   Matheron, Dowd, Genton: exact-rational models of estimators.py (run against it by the harness);
+   Cressie-Hawkins: the documented formula over R (it needs square roots). *)
+Theorem C10_matheron_perm l l' : Permutation l l' -> optQeq (matheron l) (matheron l').
 Proof. exact (matheron_perm l l'). Qed.
-Print Assumptions C10_matheron_perm_partial.
+Print Assumptions C10_matheron_perm.
+Theorem C10_dowd_perm l l' : Permutation l l' -> optQeq (dowd l) (dowd l').
+Proof. exact (dowd_perm l l'). Qed.
+Print Assumptions C10_dowd_perm.
+Theorem C10_genton_perm l l' : Permutation l l' -> optQeq (genton l) (genton l').
+Proof. exact (genton_perm l l'). Qed.
+Print Assumptions C10_genton_perm.
+Theorem C10_cressie_perm (l l' : list R) : Permutation l l' -> cressieR l = cressieR l'.
+Proof. exact (cressie_perm l l'). Qed.
+Print Assumptions C10_cressie_perm.
 
 (* translation, rotation, reflection keep every squared euclidean distance *)
 Theorem C10_rigid_motion c s a b p q :
@@ -39,16 +48,26 @@ Theorem C10_value_shift a b c : Qabs ((a + c) - (b + c)) == Qabs (a - b).
 Proof. exact (shift_diff a b c). Qed.
 Print Assumptions C10_value_shift.
 
-(* multiplying the values by k multiplies differences by |k| and the Matheron semivariance by k^2.
-   PARTIAL: Dowd/Genton (quantile homogeneity) and Cressie-Hawkins (needs sqrt over R) are covered
-   by the metamorphic runs only. *)
+(* multiplying the values by k multiplies every difference by |k| and the semivariance by k^2, for all four
+   estimators (the class handed to the estimator is the list of |differences|, so it is multiplied by |k|). *)
 Theorem C10_value_scale_diff a b k : Qabs (k * a - k * b) == Qabs k * Qabs (a - b).
 Proof. exact (scale_diff a b k). Qed.
 Print Assumptions C10_value_scale_diff.
-Theorem C10_matheron_scale_partial k l :
+Theorem C10_matheron_scale k l :
   optQeq (matheron (map (fun v => k * v) l)) (option_map (fun g => k * k * g) (matheron l)).
 Proof. exact (matheron_scale k l). Qed.
-Print Assumptions C10_matheron_scale_partial.
+Print Assumptions C10_matheron_scale.
+Theorem C10_dowd_scale k l :
+  optQeq (dowd (map (Qmult (Qabs k)) l)) (option_map (fun g => k * k * g) (dowd l)).
+Proof. exact (dowd_scale k l). Qed.
+Print Assumptions C10_dowd_scale.
+Theorem C10_genton_scale k l :
+  optQeq (genton (map (Qmult (Qabs k)) l)) (option_map (fun g => k * k * g) (genton l)).
+Proof. exact (genton_scale k l). Qed.
+Print Assumptions C10_genton_scale.
+Theorem C10_cressie_scale (k : R) (l : list R) : cressieR (map (Rmult (Rabs k)) l) = (k * k * cressieR l)%R.
+Proof. exact (cressie_scale k l). Qed.
+Print Assumptions C10_cressie_scale.
 
 (* multiplying the coordinates by s > 0: 'even' edges scale by s, the classification is unchanged *)
 Theorem C10_coord_scale_groups s edges d : 0 < s -> group_of (map (fun e => s * e) edges) (s * d) = group_of edges d.
